@@ -335,6 +335,63 @@ def staged(run, jobs, first, chunk=6000, max_timeouts=3, max_aborts=8, only_firs
 
 # --------------------------------------------------------------------------- the check
 
+PEXPR_FIXED = [
+    "a[1 + i]", "a[i + 1]", "a[(1 + i)]", "f(a, b + 1u8) * g()", "(a, b).0 + t.1", "s.f.g[i].0", "x <= y", "x >= y && y <= x",
+    "if (if a { 1u8 } else { 2u8 }) == v { x } else { y }", "-x as u8", "!p as u8 + 1u8", "(x,)", "()", "a - -3i8", "a-1", "((a))",
+    "if a { 1u8 } else if b { 2u8 } else { 3u8 } + 10u8", "1u8 + if p { a } else { b } * 3u8", "a as u16 as u8", "f(f(a))",
+    "a[b[c]]", "x . 0 . 1", "a < b == c", "a == b == c", "a < b < c", "- - x", "!!p", "a as bool", "a as Foo", "f()", "f(a,)",
+    "(a, b,)", "a + ", "+ a", "a b", "if a { b }", "if a { b } else", "x.0.1.2", "a[0][1]", "a[0usize]", "true && false || p",
+    "a | b ^ c & d", "a << b >> c", "a * b / c % d", "a - b - c", "a && b && c", "a || b && c || d", "1u8 + 2u8 * 3u8 - 4u8",
+]
+
+
+def parser_tie_pass(ck, quick):
+    """the Gallina model of the expression parser (Front/ParseExpr.v, proved to implement Rust's precedence and
+    associativity: ParseExprProofs.parse_show_min) against the real parser: same untyped tree, or both refuse"""
+    import gen_prec as GP
+    rng = ck.rng
+    texts = list(PEXPR_FIXED)
+    for _ in range(250 if quick else 6000):
+        e, t, src = GP.program(rng, rng.choice([1, 2, 3, 4]))
+        texts.append(GP.show(e))
+    # token-level damage: mostly refused by both
+    for t in list(texts[len(PEXPR_FIXED):len(PEXPR_FIXED) + (80 if quick else 1500)]):
+        toks = t.split(" ")
+        if len(toks) > 2:
+            k = rng.randrange(len(toks))
+            texts.append(" ".join(toks[:k] + toks[k + 1:]))
+            texts.append(" ".join(toks[:k] + [toks[k]] + toks[k:]))
+            j = rng.randrange(len(toks))
+            toks2 = list(toks); toks2[k], toks2[j] = toks2[j], toks2[k]
+            texts.append(" ".join(toks2))
+    jobs = [f"(pexpr p{i} (src {quote(t)}))" for i, t in enumerate(texts)]
+    rs = run_jobs(GVRUN, jobs, "c07.pexpr.rs", timeout_per_job=1.0)
+    ml = run_jobs(MODELRUN, jobs, "c07.pexpr.ml", timeout_per_job=1.0)
+    cnt, bad = {}, 0
+    for i, t in enumerate(texts):
+        r, m = rs.get(f"p{i}", "(no-result)").strip(), ml.get(f"p{i}", "(no-result)").strip()
+        if r == "(outside)" or m == "(outside)":
+            kind = "outside-model"     # match / blocks with statements / struct, enum, array literals: not modelled
+        elif r == m:
+            kind = "same-tree" if r.startswith("(tree") else "both-refuse"
+        else:
+            kind = "differ"
+            bad += 1
+            if bad <= 3:
+                ck.violation("the model of the expression parser (Front/ParseExpr.v) and src/parse.rs build different trees "
+                             "for this text: the precedence theorems no longer speak about the code",
+                             {"text": t, "rust": r[:300], "model": m[:300], "correspondence": "Front/ParseExpr.v parse_expr vs "
+                              "garble_lang parser (untyped tree of `let rr = <text>;`)"}, found_input=False)
+        cnt[kind] = cnt.get(kind, 0) + 1
+    ck.obligation("correspondence Front/ParseExpr.v = src/parse.rs: the model of the expression parser builds the same "
+                  "untyped tree as the real parser (or both refuse) on every generated and damaged expression text",
+                  bad == 0, f"{bad} differ")
+    ck.obligation("parser tie: at least half of the texts are trees compared node by node",
+                  cnt.get("same-tree", 0) * 2 >= len(texts) - cnt.get("both-refuse", 0), str(cnt))
+    ck.coverage["parser_model_tie"] = {"texts": len(texts), "by_kind": cnt}
+    return len(texts)
+
+
 def run(ck):
     quick = ck.tier == "quick"
     rng = ck.rng
@@ -655,6 +712,7 @@ def run(ck):
                   "text (no panic, abort or timeout other than listed known findings)",
                   unknown_fails == 0, f"{unknown_fails} failing jobs")
     n_eval = len(sjobs) + len(pj) + len(fjs)
+    n_pexpr = parser_tie_pass(ck, quick) if (ck.harness_ok and ck.model_ok) else 0
     ck.coverage.update({
         "evaluations": n_eval,
         "distinct_nontrivial": len(set(t for _, t in stexts if len(t) >= 4)) + len(set(t for _, t, _ in fj if len(t) >= 4)),
